@@ -154,7 +154,7 @@ def handle (fields : List String) (obs : String) : String × String :=
   | [namesS, opsS] =>
     match parseNames namesS, allSome ((splitList opsS ";").map parseTOp) with
     | some names, some ops =>
-      (String.intercalate ";" (runModel names ops), judge names ops (obs.splitOn ";"))
+      (String.intercalate ";" (runModel names ops), judge names ops (if obs = "" then [] else obs.splitOn ";"))
     | _, _ => ("bad-op", "bad-op")
   | _ => ("bad-op", "bad-op")
 
